@@ -90,7 +90,7 @@ PyFold(seq, k, ns) ==
     CASE kind[i] = "setter" ->      \* @x.setter def x: rebinds x to a property built from the old one (needs a property x)
              PyFold(seq, k + 1, IF nm[i] \in DOMAIN ns /\ ns[nm[i]].kind = "property" THEN ns ELSE [x \in DOMAIN ns \ {nm[i]} |-> ns[x]])
       [] kind[i] \in {"oldcm", "oldsm"} ->   \* f = classmethod(f): wraps whatever f is now (NameError if unbound: not generated)
-             PyFold(seq, k + 1, IF nm[i] \in DOMAIN ns /\ ns[nm[i]].kind \in {"method", "class method", "static method"}
+             PyFold(seq, k + 1, IF nm[i] \in DOMAIN ns /\ ns[nm[i]].kind \in {"method", "async method", "class method", "static method"}
                                   THEN [ns EXCEPT ![nm[i]].kind = IF kind[i] = "oldcm" THEN "class method" ELSE "static method"]
                                   ELSE ns)
       [] OTHER -> PyFold(seq, k + 1, [x \in DOMAIN ns \cup {nm[i]} |-> IF x = nm[i] THEN [node |-> i, kind |-> PyKind(i)] ELSE ns[x]])
